@@ -172,6 +172,24 @@ func c06Run(dir string, id int, c *c06Case, jp *jobProvider, lg *zap.SugaredLogg
 			mm = &c06Mismatch{Kind: "panic", Case: *c, Round: round, Panic: fmt.Sprint(r), Got: rec.calls}
 		}
 	}()
+	// Truncation noticed by the pass that read the data (copy-truncate rotation): for plain cases whose first segment ends with a
+	// newline, the file is truncated to nothing once the first pass has consumed all of it, i.e. before its read that returns
+	// EOF; the later segments are then the file's whole content.  Expectation: the declarative line oracle applied to that
+	// content, offsets counted from the start of the file.
+	truncated := false
+	if id%5 == 0 && c.M == 0 && !c.Skip && c.Op == "direct" && c.Resume == 0 && len(c.Segs) > 1 && len(c.Segs[0]) > 0 && c.Segs[0][len(c.Segs[0])-1] == 0 {
+		size := int64(len(c.Segs[0]))
+		rec.tick = func() {
+			if truncated {
+				return
+			}
+			if pos, err := rf.Seek(0, 1); err == nil && pos == size {
+				if err := os.Truncate(path, 0); err == nil {
+					truncated = true
+				}
+			}
+		}
+	}
 	for round = 0; round < len(c.Segs); round++ {
 		if round > 0 {
 			maintMode := id % 3 // 0: resumed by the write notification; 1: a maintenance tick on the idle file first; 2: resumed BY maintenance
@@ -208,6 +226,36 @@ func c06Run(dir string, id int, c *c06Case, jp *jobProvider, lg *zap.SugaredLogg
 		jp.jobsChan <- nil
 		w.work(rec, jp, c.B, lg)
 
+		if truncated && round > 0 {
+			// lines of the content written since the truncation that end in this round's segment
+			var content []int
+			for k := 1; k <= round; k++ {
+				content = append(content, c.Segs[k]...)
+			}
+			prev := len(content) - len(c.Segs[round])
+			want := []c06Call{}
+			start := 0
+			for i, sym := range content {
+				if sym == 0 {
+					if i >= prev {
+						want = append(want, c06Call{Off: int64(i + 1), Data: string(c06Bytes(content[start : i+1]))})
+					}
+					start = i + 1
+				}
+			}
+			got := []c06Call{}
+			for _, g := range rec.calls {
+				got = append(got, c06Call{Off: g.Off, Data: g.Data})
+			}
+			same := len(got) == len(want)
+			for i := 0; same && i < len(want); i++ {
+				same = got[i] == want[i]
+			}
+			if !same {
+				return &c06Mismatch{Kind: "calls_differ_after_truncation", Case: *c, Round: round, Want: want, Got: got}
+			}
+			continue
+		}
 		want := make([]c06Call, 0, len(c.Exp[round]))
 		ok := len(rec.calls) == len(c.Exp[round])
 		for i, e := range c.Exp[round] {
